@@ -114,19 +114,19 @@ def run(prog, chk):
                'reset writes amplitudes outside its accumulation and update sweeps (%d writes, first at line %s): the statistics of the other qubits are proved for the two sweeps only — '
                'a shortcut path has to keep them as well' % (len(stray), stray[0].get('ln')), key='weights')
         return
-    if len(loops) != 2:
-        raise AnalysisBroken('reset: expected an accumulation loop and an update loop, found %d loops' % len(loops))
+    if len(loops) < 2 or len(loops) > 3:
+        raise AnalysisBroken('reset: expected accumulation sweep(s) and an update loop, found %d loops' % len(loops))
     aliases = KP.size_aliases(rs.body, amp)
     try:
-        sw1 = KP.state_sweep(loops[0], amp, bit_ids, aliases, rs.body)
-        sw2 = KP.state_sweep(loops[1], amp, bit_ids, aliases, rs.body)
+        # the weights may be summed in one sweep or in one sweep each (a shared `subspaceWeight(bit, set)` helper called twice)
+        sw_acc = [KP.state_sweep(lp_, amp, bit_ids, aliases, rs.body) for lp_ in loops[:-1]]
+        sw2 = KP.state_sweep(loops[-1], amp, bit_ids, aliases, rs.body)
     except KP.BadSweep as ex:
         chk.ob('R04.1', rs, rs.ln, False, 'reset does not sweep the whole state vector: %s' % ex, key='weights')
         return
-    l1 = sw1
     l2 = sw2
-    if l1 is None or l2 is None:
-        why = [KP.partial_state_loop(l, amp) for l, x in ((loops[0], l1), (loops[1], l2)) if x is None]
+    if any(x is None for x in sw_acc) or l2 is None:
+        why = [KP.partial_state_loop(l, amp) for l, x in list(zip(loops[:-1], sw_acc)) + [(loops[-1], l2)] if x is None]
         if all(why):
             chk.ob('R04.1', rs, rs.ln, False, 'reset does not sweep the whole state vector: %s' % ' / '.join(why), key='weights')
             return
@@ -137,12 +137,13 @@ def run(prog, chk):
         # sums added for one pair of cells, attributed to the bit of the visit that adds them (flat sweep: two visits per pair;
         # block-wise sweep: one visit per half)
         accs = {0: ({}, {}), 1: ({}, {})}
-        for vs in KP.sweep_visits(l1):
-            _fin, acc, wrote = KP.run_visits(it, [vs])
-            for c_ in wrote:
-                accs[vs['b']][0][c_] = True
-            for k_, x_ in acc.items():
-                accs[vs['b']][1][k_] = accs[vs['b']][1].get(k_, 0) + x_
+        for l1 in sw_acc:
+            for vs in KP.sweep_visits(l1):
+                _fin, acc, wrote = KP.run_visits(it, [vs])
+                for c_ in wrote:
+                    accs[vs['b']][0][c_] = True
+                for k_, x_ in acc.items():
+                    accs[vs['b']][1][k_] = accs[vs['b']][1].get(k_, 0) + x_
     except (KP.NotPairwise, KS.Unfoldable) as e:
         raise AnalysisBroken('reset accumulation loop: ' + str(e))
     if accs[0][0] or accs[1][0]:
@@ -301,15 +302,15 @@ def run(prog, chk):
                             it.scalars[v['id']] = it.amp_expr(v['init'])
             fin = KP.sweep_final(it, l2)
         except KP.OutsidePair as e:
-            chk.ob('R04.2', rs, loops[1].get('ln', rs.ln), False, 'the update loop acts on the pair (i, i|2^q) of the swept index: %s' % e, key='transform:cells')
+            chk.ob('R04.2', rs, loops[-1].get('ln', rs.ln), False, 'the update loop acts on the pair (i, i|2^q) of the swept index: %s' % e, key='transform:cells')
             return
         except (KP.NotPairwise, KS.Unfoldable) as e:
             raise AnalysisBroken('reset update loop: ' + str(e))
         want0 = KP.A[1] / sp.sqrt(p1) if one else KP.A[0] / sp.sqrt(p0)
         ok0 = sp.simplify(fin[0] - want0) == 0
         ok1 = sp.simplify(fin[1]) == 0
-        chk.ob('R04.2', rs, loops[1].get('ln', rs.ln), ok0, 'outcome %d: bit-clear cell becomes %s (expected %s)' % (1 if one else 0, fin[0], want0), key='transform:outcome%d' % (1 if one else 0))
-        chk.ob('R04.3', rs, loops[1].get('ln', rs.ln), ok1, 'outcome %d: bit-set cell becomes %s (expected 0)' % (1 if one else 0, fin[1]), key='cleared:outcome%d' % (1 if one else 0))
+        chk.ob('R04.2', rs, loops[-1].get('ln', rs.ln), ok0, 'outcome %d: bit-clear cell becomes %s (expected %s)' % (1 if one else 0, fin[0], want0), key='transform:outcome%d' % (1 if one else 0))
+        chk.ob('R04.3', rs, loops[-1].get('ln', rs.ln), ok1, 'outcome %d: bit-set cell becomes %s (expected 0)' % (1 if one else 0, fin[1]), key='cleared:outcome%d' % (1 if one else 0))
 
     # ---- R04.4 -----------------------------------------------------------------------------------
     # evaluator: every `reset` statement / release / reuse path calls sim.reset
